@@ -193,6 +193,14 @@ fn rename_node(t: &Tm, ren: &[Name], alpha_shift: Name) -> Tm {
     Tm { op: t.op.clone(), args }
 }
 
+pub fn run_case(c: &NodeCase, obs: &mut Obs) -> Result<(), String> {
+    run(c, obs)
+}
+
+pub fn decode_case(ch: &[u16], a: u16, b: u16) -> NodeCase {
+    decode(ch, a, b)
+}
+
 fn run(c: &NodeCase, obs: &mut Obs) -> Result<(), String> {
     match c.lang {
         LangId::Core => run_l::<Core>(c, obs),
